@@ -76,7 +76,7 @@ def g_ops(rng, depth, big, budget):
             break
         if depth > 0 and rng.random() < 0.5:
             budget[0] -= 2
-            ops.append({"op": "action", "type": rng.choice(["app:a", "app:b", "x\ny"]), "fields": g_fields(rng, big),
+            ops.append({"op": "action", "type": rng.choice(["app:a", "app:b", "x\ny", ""]), "fields": g_fields(rng, big),
                         "body": g_ops(rng, depth - 1, big, budget), "fail": rng.random() < 0.3, "end": g_fields(rng, 0)})
         else:
             budget[0] -= 1
